@@ -35,7 +35,19 @@ def handle (line : String) : String :=
     | some wl, some bl =>
       let scfg : FilterCfg := ⟨wl, bl⟩
       let mcfg : KeyFilter.Config := ⟨wl, bl⟩
-      if op == "d" || op == "w" || op == "s" then
+      if op == "p" then
+        -- several commands filtered at the same moment: each gets the answer it gets alone
+        " | ".intercalate (rest.map fun t =>
+          match t.splitOn ":" with
+          | [n, as] =>
+            match ofHex n, (as.splitOn ",").mapM ofHex with
+            | some name, some args =>
+              match filterSpec scfg name args with
+              | some v => renderVerdict v
+              | none => "nodemand"
+            | _, _ => "badcase"
+          | _ => "badcase")
+      else if op == "d" || op == "w" || op == "s" then
         match rest with
         | name :: args =>
           match ofHex name, args.mapM ofHex with
